@@ -343,6 +343,116 @@ def _rust_order_guards(ctx) -> None:
     ctx.count("rust_order_errors", n)
 
 
+PY_DURATIONS = [   # text -> (years, months, microseconds of the rest) | None = must be refused
+    ("P1Y2M3DT4H5M6S", (1, 2, ((3 * 24 + 4) * 3600 + 5 * 60 + 6) * 10**6)), ("P2W", (0, 0, 14 * 86400 * 10**6)), ("P1.5W", (0, 0, 10 * 86400 * 10**6 + 12 * 3600 * 10**6)),
+    ("P1,5W", (0, 0, 10 * 86400 * 10**6 + 12 * 3600 * 10**6)), ("P1.5D", (0, 0, 36 * 3600 * 10**6)), ("P1,5D", (0, 0, 36 * 3600 * 10**6)),
+    ("PT1.5H", (0, 0, 5400 * 10**6)), ("PT1,5H", (0, 0, 5400 * 10**6)), ("PT1.5M", (0, 0, 90 * 10**6)), ("PT1,5M", (0, 0, 90 * 10**6)),
+    ("PT4H1,5M", (0, 0, (4 * 3600 + 90) * 10**6)), ("PT0.5S", (0, 0, 500000)), ("PT0,5S", (0, 0, 500000)), ("PT1.000001S", (0, 0, 1000001)),
+    ("P1DT1.25S", (0, 0, 86400 * 10**6 + 1250000)), ("PT36H", (0, 0, 36 * 3600 * 10**6)), ("P0D", (0, 0, 0)), ("PT0S", (0, 0, 0)), ("P10Y", (10, 0, 0)),
+    ("P1M", (0, 1, 0)), ("PT1M", (0, 0, 60 * 10**6)), ("P1Y1D", (1, 0, 86400 * 10**6)), ("P3DT0.25H", (0, 0, 3 * 86400 * 10**6 + 900 * 10**6)),
+    ("PT2H30M", (0, 0, 9000 * 10**6)), ("P1Y2M", (1, 2, 0)), ("PT10.123456S", (0, 0, 10123456)), ("P0.25D", (0, 0, 6 * 3600 * 10**6)),
+    ("P1.5Y", None), ("P1,5Y", None), ("P1.5M", None), ("P1Y1,5M", None), ("PT1.5H30M", None), ("PT1,5H30M", None), ("P1.5DT1H", None), ("PT1.5M1S", None),
+    ("P1W1D", None), ("P1WT1H", None), ("PT1M1H", None), ("P1D1Y", None), ("P1S", None), ("1D", None), ("PT1H1H", None),
+]
+
+
+def _py_duration_tabulate(ctx) -> None:
+    """PYDUR.tabulated: the pure-Python duration parser `_parse_iso8601_duration` is run by the checker's interpreter (the
+    pattern ISO8601_DURATION is matched by the standard library's `re`; Duration(...) only records its arguments) on a table
+    of duration strings - every designator, '.' and ',' fractions on every component that may carry one, week form,
+    zero values - and on strings that must be refused (fractional years / months, a fraction that is not on the smallest
+    component, mixed week form, designators out of order or repeated).  Accepted strings must yield the given years and
+    months and a rest equal to the exact value in microseconds (the arguments are summed with the standard library's
+    timedelta, which is what Duration.__new__ does with them - C09)."""
+    import datetime as _dt
+    from ..rules import minieval
+    m = pmod("parsing.iso8601")
+    fn = m.func("_parse_iso8601_duration")
+    try:
+        pat = re.compile(core.const("parsing.iso8601", "ISO8601_DURATION"), re.VERBOSE)
+        consts = {}
+        for st in m.tree.body:
+            if isinstance(st, ast.ImportFrom) and st.module == "pendulum.constants":
+                for a in st.names:
+                    consts[a.asname or a.name] = core.const("constants", a.name)
+        bad, n = [], 0
+        for text, want in PY_DURATIONS:
+            glob = {**consts, "ISO8601_DURATION": pat, "ParserError": ValueError, "ValueError": ValueError,
+                    "Duration": minieval.ClassStub(_new=lambda *a, **k: minieval.Stub(_args=a, _kws=k), _isa=lambda v: False)}
+            funcs = {st.name: st for st in m.top() if isinstance(st, ast.FunctionDef)}
+            n += 1
+            try:
+                got = minieval.call(fn, [text], {}, {**funcs, "$globals": glob})
+            except minieval.Raised as e:
+                if want is not None:
+                    bad.append(f"{text!r} is refused ({e.exc_name}); it denotes years={want[0]} months={want[1]} and {want[2]} microseconds")
+                continue
+            if got is None:
+                if want is not None:
+                    bad.append(f"{text!r} is not recognised as a duration")
+                continue
+            if want is None:
+                bad.append(f"{text!r} is accepted; it must be refused")
+                continue
+            if got._args:
+                raise core.Unsupported("Duration called positionally")
+            k = dict(got._kws)
+            y, mo = k.pop("years", 0), k.pop("months", 0)
+            td = _dt.timedelta(**k)
+            us = (td.days * 86400 + td.seconds) * 10**6 + td.microseconds
+            if (y, mo, us) != want:
+                bad.append(f"{text!r} -> years={y} months={mo} and {us} microseconds (expected {want[0]}, {want[1]}, {want[2]})")
+    except (core.Unsupported, KeyError, TypeError, AttributeError, ValueError, IndexError, re.error) as e:
+        ctx.unverified("PYDUR.tabulated", "_parse_iso8601_duration", f"outside the checker's interpreter: {type(e).__name__}: {e}", m.loc(fn))
+        return
+    ctx.ob("PYDUR.tabulated", "_parse_iso8601_duration", not bad, f"{n} duration strings: " + ("; ".join(bad[:3]) if bad else
+           "every accepted string yields its exact value, every malformed one is refused"), m.loc(fn))
+
+
+def _rust_fraction_radix(ctx) -> None:
+    """FRACTION-SCALE (rs): in the compiled duration parser a fraction is carried down unit by unit in floating point -
+    `extra = fraction * K; whole = extra.trunc(); duration.<unit> += whole as u32; ...`.  By dataflow over MIR: every value
+    `x * K` (K a float literal) that reaches, through trunc()/round() and the cast to u32, the `+=` of a duration field must
+    use the radix of that field: days 7 (from weeks), hours 24, minutes 60, seconds 60, microseconds 1e6."""
+    try:
+        mir = mirfront.load()
+    except mirfront.MirUnavailable:
+        return
+    from .. import mirsym
+    rel = "rust/src/parsing.rs"
+    f = mir.fn("parse_duration")
+    sf = mirsym.struct_fields_from_source((core.REPO / rel).read_text())
+    fields = sf.get("ParsedDuration") or []
+    radix = {"days": 7.0, "hours": 24.0, "minutes": 60.0, "seconds": 60.0, "microseconds": 1e6}
+    defs = {}
+    for b, st in f.all_stmts():
+        if st.dest:
+            defs.setdefault(st.dest, []).append(st)
+    n = 0
+    for b, st in f.all_stmts():
+        mo = re.fullmatch(r"\(_\d+\.(\d+): u32\)", st.dest or "")
+        if not (mo and st.op == "Add" and len(st.args) == 2 and st.args[0] == st.dest):
+            continue
+        fld = fields[int(mo.group(1))] if int(mo.group(1)) < len(fields) else None
+        src = st.args[1]
+        cast = [d for d in defs.get(src, []) if d.op == "cast" and "FloatToInt" in d.args]
+        if not cast or fld is None:
+            continue
+        t = [d for d in defs.get(cast[0].args[0], []) if d.op == "call" and re.search(r"::(trunc|round)$", d.callee.split("(")[0])]
+        mul = [d for d in defs.get(t[0].args[0], []) if d.op == "Mul"] if t else []
+        k = None
+        if mul:
+            km = re.fullmatch(r"const ([0-9.E+\-]+)f64", mul[0].args[1])
+            k = float(km.group(1)) if km else None
+        n += 1
+        if k is None:
+            ctx.unverified("FRACTION-SCALE", f"rs:parse_duration/{fld}@bb{b.idx}", f"the value added to {fld} is not `x * <float literal>` truncated / rounded", rel)
+            continue
+        ctx.ob("FRACTION-SCALE", f"rs:parse_duration/{fld}@bb{b.idx}", fld in radix and k == radix[fld],
+               f"a fractional carry of `x * {k:g}` is added to duration.{fld}; one unit above {fld} holds {radix.get(fld, '?'):g} of them", rel)
+    ctx.count("rust_fraction_carries", n)
+
+
 def _interval_tabulate(ctx, m, fn) -> bool:
     """INTERVAL.tabulated: parser._parse is run by the checker's interpreter on the three interval forms the low-level parser
     can hand it (start/end, start/duration, duration/end; stubs that only record what is done to them), with and without a
@@ -502,6 +612,8 @@ def run(ctx) -> None:
     ctx.explanation = EXPLANATION
     ctx.step(_fraction_scale, ctx)
     ctx.step(_rust_arith, ctx)
+    ctx.step(_rust_fraction_radix, ctx)
+    ctx.step(_py_duration_tabulate, ctx)
     ctx.step(_rust_round_last, ctx)
     ctx.step(_rust_order_guards, ctx)
     ctx.step(_interval_assembly, ctx)
@@ -509,7 +621,8 @@ def run(ctx) -> None:
     ctx.step(C17._interval_types, ctx, True)        # which halves reach _Interval, and that the three well-formed shapes are accepted
     from . import C09
     ctx.step(C09._duration_new, ctx)        # 'a remaining length equal to the exact value rounded to the microsecond': every parsed duration is built through Duration.__new__
-    ctx.expect_min("FRACTION-SCALE", 6)
+    ctx.expect_min("FRACTION-SCALE", 21)
+    ctx.expect_min("PYDUR.tabulated", 1)
     ctx.expect_min("INTERVAL.assembly", 3)
     ctx.expect_min("INTERVAL.tabulated", 1)
     ctx.expect_min("RUST-ARITH", 4)
